@@ -1,0 +1,51 @@
+//! Verification hooks (compiled only with `--cfg turmoil_verif`).
+//!
+//! Read-only with respect to simulation state: a thread-local log of the
+//! random decisions the simulation drew (link delay, fail / repair coins,
+//! per-step host order) and accessors for per-host table sizes.
+
+use std::cell::RefCell;
+use std::net::IpAddr;
+
+use crate::world::World;
+use crate::ToIpAddr;
+
+thread_local! {
+    static LOG: RefCell<Vec<(&'static str, u64)>> = const { RefCell::new(Vec::new()) };
+    static TURNS: RefCell<Vec<IpAddr>> = const { RefCell::new(Vec::new()) };
+}
+
+pub(crate) fn log(kind: &'static str, value: u64) {
+    LOG.with(|l| l.borrow_mut().push((kind, value)));
+}
+
+pub(crate) fn log_turn(addr: IpAddr) {
+    TURNS.with(|l| l.borrow_mut().push(addr));
+}
+
+/// Drain the decision log (`"delay"` in nanoseconds, `"fail"` 0/1, `"repair"` 1).
+pub fn drain_decisions() -> Vec<(&'static str, u64)> {
+    LOG.with(|l| std::mem::take(&mut *l.borrow_mut()))
+}
+
+/// Drain the order in which running hosts were scheduled by `Sim::step`.
+pub fn drain_turns() -> Vec<IpAddr> {
+    TURNS.with(|l| std::mem::take(&mut *l.borrow_mut()))
+}
+
+/// Table sizes of a host.
+#[derive(Debug, Clone, Copy, PartialEq, Eq)]
+pub struct HostCounts {
+    pub udp_binds: usize,
+    pub tcp_binds: usize,
+    pub tcp_streams: usize,
+}
+
+/// Table sizes of `addr`. Must be called from within a simulation (host code).
+pub fn host_counts(addr: impl ToIpAddr) -> HostCounts {
+    World::current(|world| {
+        let ip = world.lookup(addr);
+        let host = world.hosts.get(&ip).expect("missing host");
+        host.verif_counts()
+    })
+}
